@@ -26,7 +26,8 @@ const TAG_LABEL: u64 = 0x0a;
 
 /// (tag, is_declaration) for class `c` at entry number `k` (rotates through the class's tags
 /// so that all ten tags of the property's quantifier occur).
-fn tag_for(c: Class, k: usize) -> (u64, bool) {
+fn tag_for(c: Class, k: usize, rot: usize) -> (u64, bool) {
+    let k = k + rot;
     match c {
         Class::N => (TAG_NAMESPACE, false),
         Class::S => [(TAG_STRUCTURE_TYPE, false), (TAG_BASE_TYPE, false), (TAG_SUBPROGRAM, false), (TAG_TYPEDEF, false)][k % 4],
@@ -83,6 +84,8 @@ struct Case {
     edges: Vec<(usize, usize)>,
     /// entries carrying a reference that does not designate an entry
     invalid_src: Vec<usize>,
+    /// rotation of the tag lists, so that every tag occurs at every position
+    rot: usize,
 }
 
 fn name_of(k: usize) -> String {
@@ -103,7 +106,7 @@ fn build_case(c: &mut Case) -> Option<Model> {
     let mut loc: Vec<(usize, usize)> = vec![(0, 0); c.n + 1];
     for k in 1..=c.n {
         let u = c.unit_of[k];
-        let (tag, decl) = tag_for(c.class[k], k);
+        let (tag, decl) = tag_for(c.class[k], k, c.rot);
         let mut attrs = vec![at(AT_NAME, AV::Str(FORM_STRING, name_of(k).into_bytes()))];
         if decl {
             attrs.push(at(AT_DECLARATION, AV::Flag(if cfg.version >= 4 { FORM_FLAG_PRESENT } else { FORM_FLAG }, true)));
@@ -308,7 +311,7 @@ fn dump_by_name(secs: &Secs, big: bool) -> Result<DwarfD, String> {
 }
 
 fn render_case(c: &Case, b: &Built) -> String {
-    let ents: Vec<String> = (1..=c.n).map(|k| format!("e{}(parent={}, class={:?}, tag={:#x}{}, unit={})", k, if c.parent[k] == 0 { "root".to_string() } else { name_of(c.parent[k]) }, c.class[k], tag_for(c.class[k], k).0, if tag_for(c.class[k], k).1 { " declaration" } else { "" }, c.unit_of[k])).collect();
+    let ents: Vec<String> = (1..=c.n).map(|k| format!("e{}(parent={}, class={:?}, tag={:#x}{}, unit={})", k, if c.parent[k] == 0 { "root".to_string() } else { name_of(c.parent[k]) }, c.class[k], tag_for(c.class[k], k, c.rot).0, if tag_for(c.class[k], k, c.rot).1 { " declaration" } else { "" }, c.unit_of[k])).collect();
     format!("{} entries [{}] carrier {:?} from {} to {}{} sections: {}", c.cfg.name(), ents.join(", "), c.carrier, if c.src == 0 { "the root of unit 0".to_string() } else { name_of(c.src) }, if c.dst == 0 { "unit root".to_string() } else { name_of(c.dst) }, match c.second { Some((k, s2, d2)) => format!(" and {:?} from e{} to {}", k, s2, if d2 == 0 { "unit root".to_string() } else { name_of(d2) }), None => String::new() }, render_secs(&b.secs))
 }
 
@@ -502,12 +505,15 @@ fn sub_n(tier: Tier, n: usize, alphabet: &'static [Class], carriers: &'static [C
     let nclass = class_assignments(n, alphabet);
     // unit split: 0 = one unit; t >= 1 = top-level trees from the t-th on go to a second unit
     let pairs = if only_pair.is_some() { 1 } else { ((n + 1) * (n + 1)) as u64 };
-    let len = shapes.len() as u64 * nclass * (max_split + 1) * carriers.len() as u64 * pairs * routes.len() as u64 * cfgs.len() as u64;
+    let full_rot = n <= tier.pick(2, 3);
+    let nrot: u64 = if full_rot { 5 } else { 1 };
+    let len = shapes.len() as u64 * nclass * (max_split + 1) * carriers.len() as u64 * pairs * routes.len() as u64 * cfgs.len() as u64 * nrot;
     let bound = format!(
-        "every forest with exactly {} non-root entries ({} shapes) x every assignment of tag classes {:?} (tags rotate through namespace / structure_type, base_type, subprogram definition, typedef / member, formal_parameter, variable, lexical_block, subprogram declaration / label) x unit split in 0..={} (0 = one unit, t = top-level trees from the t-th on in a second unit) x carrier kind in {:?} x {} x routes (stepwise?) {:?} x {} configs; inside each case EVERY subset of required entries (2^{})",
+        "every forest with exactly {} non-root entries ({} shapes) x every assignment of tag classes {:?} (tags rotate through namespace / structure_type, base_type, subprogram definition, typedef / member, formal_parameter, variable, lexical_block, subprogram declaration / label; {}) x unit split in 0..={} (0 = one unit, t = top-level trees from the t-th on in a second unit) x carrier kind in {:?} x {} x routes (stepwise?) {:?} x {} configs; inside each case EVERY subset of required entries (2^{})",
         n,
         shapes.len(),
         alphabet,
+        if full_rot { "x all 5 rotations of the tag lists" } else { "rotation derived from the other dimensions" },
         max_split,
         carriers,
         match only_pair { Some(p) => format!("the (source, target) pair {:?}", p), None => "every (source, target) pair incl. the root of unit 0 as source and the source's unit root as target".to_string() },
@@ -515,17 +521,21 @@ fn sub_n(tier: Tier, n: usize, alphabet: &'static [Class], carriers: &'static [C
         cfgs.len(),
         n
     );
-    let _ = tier;
     Sub::new(&format!("filter-n{}", n), len, &bound, move |ctx, i| {
         let mut x = Mix(i);
+        let rot_digit = x.take(nrot) as usize;
         let stepwise = *x.pick(routes);
         let pair = x.take(pairs) as usize;
         let (src, dst) = only_pair.unwrap_or((pair / (n + 1), pair % (n + 1)));
         let carrier = *x.pick(carriers);
         let split = x.take(max_split + 1) as usize;
         let mut cl = x.take(nclass);
-        let shape = x.pick(&shapes).clone();
+        let shape_idx = x.take(shapes.len() as u64) as usize;
+        let shape = shapes[shape_idx].clone();
         let cfg = *x.pick(&cfgs);
+        // n <= 3: every rotation of the tag lists is a dimension; larger n: the rotation is derived from
+        // the other digits (every tag still occurs at every position, not in full product)
+        let rot = if nrot > 1 { rot_digit } else { (cl as usize + shape_idx + pair + split) % 5 };
         let mut class = vec![Class::N; n + 1];
         for k in 1..=n {
             class[k] = alphabet[(cl % alphabet.len() as u64) as usize];
@@ -551,7 +561,7 @@ fn sub_n(tier: Tier, n: usize, alphabet: &'static [Class], carriers: &'static [C
                 }
             }
         }
-        let mut c = Case { cfg, n, parent, class, unit_of, nunits: if split > 0 { 2 } else { 1 }, carrier, src, dst, second: None, edges: vec![], invalid_src: vec![] };
+        let mut c = Case { cfg, n, parent, class, unit_of, nunits: if split > 0 { 2 } else { 1 }, carrier, src, dst, second: None, edges: vec![], invalid_src: vec![], rot };
         ctx.outcome(&format!("c19:carrier:{:?}", carrier));
         check_case(ctx, &mut c, stepwise);
     })
@@ -602,7 +612,7 @@ fn sub_two_edges(cfg: Cfg) -> Sub {
             }
         }
         let (carrier, src, dst) = dec(e1);
-        let mut c = Case { cfg, n, parent, class, unit_of, nunits: if split > 0 { 2 } else { 1 }, carrier, src, dst, second: Some(dec(e2)), edges: vec![], invalid_src: vec![] };
+        let mut c = Case { cfg, n, parent, class, unit_of, nunits: if split > 0 { 2 } else { 1 }, carrier, src, dst, second: Some(dec(e2)), edges: vec![], invalid_src: vec![], rot: (e1 + e2) as usize % 5 };
         ctx.outcome("c19:two-references");
         check_case(ctx, &mut c, false);
     })
